@@ -452,6 +452,85 @@ def rule_state(repo: Repo, rep: Report, classes: List[ClassInfo]) -> int:
     return n
 
 
+#: operations whose result may share storage with the receiver (a view, or the receiver itself when nothing has to change)
+MAY_ALIAS_METHODS = ("to", "float", "double", "half", "type", "type_as", "cpu", "cuda", "contiguous", "detach", "view", "view_as", "reshape", "squeeze", "unsqueeze", "t", "transpose", "permute", "flatten", "narrow", "expand", "expand_as", "select", "requires_grad_", "conj")
+MAY_ALIAS_ATTRS = ("real", "imag", "T", "mT", "data")
+
+
+def _tensor_attrs(ci: ClassInfo) -> set:
+    """attributes of the class known to hold tensors: registered buffers / parameters and values built by torch.* calls"""
+    out = set()
+    for c_ in [ci] + list(getattr(ci, "bases", []) or []):
+        for fi in c_.methods.values():
+            for st in ast.walk(fi.node):
+                if isinstance(st, ast.Call) and attr_chain(st.func) in ("self.register_buffer", "self.register_parameter") and st.args and isinstance(st.args[0], ast.Constant):
+                    out.add(st.args[0].value)
+                if isinstance(st, ast.Assign) and len(st.targets) == 1 and (attr_chain(st.targets[0]) or "").startswith("self.") and (attr_chain(st.targets[0]) or "").count(".") == 1:
+                    v = st.value
+                    if isinstance(v, ast.Call) and ((call_name(v) or "").startswith("torch.") or (call_name(v) or "").startswith("nn.Parameter")) and (call_name(v) or "") not in ("torch.device", "torch.Generator", "torch.dtype"):
+                        out.add(attr_chain(st.targets[0])[5:])
+    return out
+
+
+def rule_state_alias(repo: Repo, rep: Report, classes: List[ClassInfo]) -> int:
+    """A method must not modify a tensor attribute of its object through a local alias: `s = self.factor.to(dev); s /= p`
+    divides the stored factor itself whenever `.to()` has nothing to change (same device and dtype), so every call after
+    the first works with the value the previous call left behind."""
+    n = 0
+    for ci in classes:
+        tattrs = _tensor_attrs(ci)
+        if not tattrs:
+            continue
+        for m, fi in ci.methods.items():
+            if m in ("__init__", "reset", "reset_state", "reset_parameters") or m.startswith("_create") or m.startswith("_build") or m.startswith("_init"):
+                continue
+            aliases: Dict[str, tuple] = {}
+            for st in ast.walk(fi.node):
+                if isinstance(st, ast.Assign) and len(st.targets) == 1 and isinstance(st.targets[0], ast.Name):
+                    e = st.value
+                    while True:
+                        if isinstance(e, ast.Attribute) and e.attr in MAY_ALIAS_ATTRS:
+                            e = e.value
+                        elif isinstance(e, ast.Call) and isinstance(e.func, ast.Attribute) and e.func.attr in MAY_ALIAS_METHODS:
+                            e = e.func.value
+                        elif isinstance(e, ast.Subscript) and all(isinstance(i_, ast.Slice) or (isinstance(i_, ast.Constant) and not isinstance(i_.value, bool)) for i_ in (e.slice.elts if isinstance(e.slice, ast.Tuple) else [e.slice])):
+                            e = e.value
+                        else:
+                            break
+                    ch = attr_chain(e) if isinstance(e, ast.Attribute) else None
+                    if ch and ch.startswith("self.") and ch.count(".") == 1 and ch[5:] in tattrs:
+                        aliases[st.targets[0].id] = (ch, st)
+            if not aliases:
+                continue
+            n += 1
+            bad = None
+            rebinding = {nm: [s_ for s_ in ast.walk(fi.node) if isinstance(s_, ast.Assign) and any(isinstance(t_, ast.Name) and t_.id == nm for t_ in s_.targets)] for nm in aliases}
+            for st in ast.walk(fi.node):
+                nm = None
+                how = ""
+                if isinstance(st, ast.AugAssign) and isinstance(st.target, ast.Name) and st.target.id in aliases:
+                    nm, how = st.target.id, f"`{unparse(st)[:60]}` (an augmented assignment to a tensor works in place)"
+                elif isinstance(st, ast.AugAssign) and isinstance(st.target, ast.Subscript) and isinstance(st.target.value, ast.Name) and st.target.value.id in aliases:
+                    nm, how = st.target.value.id, f"`{unparse(st)[:60]}`"
+                elif isinstance(st, ast.Assign) and any(isinstance(t_, ast.Subscript) and isinstance(t_.value, ast.Name) and t_.value.id in aliases for t_ in st.targets):
+                    nm = next(t_.value.id for t_ in st.targets if isinstance(t_, ast.Subscript) and isinstance(t_.value, ast.Name) and t_.value.id in aliases)
+                    how = f"`{unparse(st)[:60]}`"
+                elif isinstance(st, ast.Call) and isinstance(st.func, ast.Attribute) and st.func.attr.endswith("_") and not st.func.attr.startswith("_") and st.func.attr not in ("requires_grad_",) and isinstance(st.func.value, ast.Name) and st.func.value.id in aliases:
+                    nm, how = st.func.value.id, f"`{unparse(st)[:60]}`"
+                if nm is None:
+                    continue
+                # the alias must still be bound to the attribute-derived value: exactly one plain binding, before the write
+                if len(rebinding[nm]) == 1 and rebinding[nm][0].lineno < st.lineno:
+                    bad = (nm, st, how)
+                    break
+            if bad:
+                ch, def_st = aliases[bad[0]]
+                rep.violation("STATE", fi, f"{ci.name}.{m}: {bad[0]} = {unparse(def_st.value)[:50]}; {unparse(bad[1])[:50]}", f"{bad[2]} modifies `{ch}` itself: `{unparse(def_st.value)[:50]}` returns the stored tensor (not a copy) whenever there is nothing to convert, so the attribute keeps the modified value and every later call - for any other input - starts from it", node=bad[1])
+            else:
+                rep.ok("STATE", fi, f"{ci.name}.{m}: locals that may share storage with {sorted({a_[0] for a_ in aliases.values()})}", "none of them is written in place", nontrivial=False)
+    return n
+
+
 def rule_tlist(repo: Repo, rep: Report, classes: List[ClassInfo]) -> int:
     n = 0
     for ci in classes:
@@ -642,6 +721,23 @@ def rule_chunk_cover(repo: Repo, rep: Report, classes: List[ClassInfo]) -> int:
                 rep.ok("CHUNK-COVER", fi, f"{owner}.{fi.name}: for {v} in {unparse(lp.iter)} over slices of {size}", "the slices cover every row (ceiling count, or the length is tested to be a multiple of the slice)", node=lp, nontrivial=False)
             else:
                 rep.violation("CHUNK-COVER", fi, f"{owner}.{fi.name}: for {v} in {unparse(lp.iter)} over slices of {size}", f"the loop runs over floor({total} / {size}) slices of {size} rows and nothing handles the remaining {total} mod {size} rows: they keep their initial values, so the result for a row depends on the number of rows in the batch and on the row's position", node=lp)
+        # second form: the data cut down to whole blocks, `x[: (N // L) * L]` (also through a local `k = N // L`), and only
+        # that part processed
+        fdefs = {s_.targets[0].id: s_.value for s_ in ast.walk(fi.node) if isinstance(s_, ast.Assign) and len(s_.targets) == 1 and isinstance(s_.targets[0], ast.Name) and isinstance(s_.value, ast.BinOp) and isinstance(s_.value.op, ast.FloorDiv)}
+        for sl in [x for x in ast.walk(fi.node) if isinstance(x, ast.Slice) and x.lower is None and isinstance(x.upper, ast.BinOp) and isinstance(x.upper.op, ast.Mult)]:
+            fac = [sl.upper.left, sl.upper.right]
+            for a_, b_ in (fac, fac[::-1]):
+                q_ = fdefs.get(a_.id) if isinstance(a_, ast.Name) else (a_ if isinstance(a_, ast.BinOp) and isinstance(a_.op, ast.FloorDiv) else None)
+                if q_ is not None and unparse(q_.right) == unparse(b_):
+                    n += 1
+                    size = unparse(b_)
+                    total = unparse(q_.left)
+                    ftxt = unparse(fi.node)
+                    if f"% {size}" in ftxt or f"{unparse(sl.upper)}:" in ftxt:
+                        rep.ok("CHUNK-COVER", fi, f"{owner}.{fi.name}: [: {unparse(sl.upper)}]", "the remainder is handled (a `%` test or a slice that starts where this one ends)", node=sl, nontrivial=False)
+                    else:
+                        rep.violation("CHUNK-COVER", fi, f"{owner}.{fi.name}: [: {unparse(sl.upper)}]", f"only the first floor({total} / {size}) * {size} elements are processed and nothing handles the remaining {total} mod {size}: the result ignores the tail of the data (a sum / mean over it is too small), depending on the length", node=sl)
+                    break
     return n
 
 
@@ -779,6 +875,7 @@ def run(repo: Repo, rep: Report, tier: str) -> None:
     n += rule_slot_memo(repo, rep, classes)
     n += rule_cache_key(repo, rep, classes)
     n += rule_state(repo, rep, classes)
+    n += rule_state_alias(repo, rep, classes)
     n += rule_tlist(repo, rep, classes)
     n += rule_zero_path(repo, rep)
     n += rule_index_broadcast(repo, rep, classes)
